@@ -22,9 +22,10 @@ func NewPreviewReader(l zerolog.Logger) previewReader {
 
 func (pr *previewReader) RenderPreview(r io.Reader, h meta.PreviewHeader) error {
 	// The size field comes from the file: grow the image as data arrives
-	// instead of allocating whatever it claims up front.
-	img := make([]byte, 0, 64*1024)
+	// instead of allocating whatever it claims up front. The first buffer is one chunk:
+	// a file may hold hundreds of small preview boxes, each of which gets here.
 	var chunk [2048]byte
+	img := make([]byte, 0, len(chunk))
 	offset := uint32(0)
 	maxSize := uint32(len(chunk))
 	for {
